@@ -2,6 +2,14 @@
 from cloud_family import *
 
 
+OBSI = ["SnapshotRetained"]
+
+
+def vlib_root():
+    import vlib
+    return vlib.VERIF
+
+
 def run(tier):
     v = Verdict("C10", tier)
     wd = workdir("C10-" + tier)
@@ -30,16 +38,16 @@ def run(tier):
     g = cconsts(Ops=ops, MaxOps=4, MaxVer=12, MaxLen=120, Draws={0, 100, 255}, WithAges=True)
     sch = cgen(wd, "gen-cleanup-2c", g, simulate=2500 if thorough else 250, depth=121)
     v.distinct += len(sch)
-    cconform(v, wd, "cleanup-2c-sim", g, sch)
+    cconform(v, wd, "cleanup-2c-sim", g, sch, obs_invs=OBSI)
     g3 = cconsts(Clients={"c1", "c2", "c3"}, Ops=ops, MaxOps=3, MaxVer=14, MaxLen=140,
                  Draws={0, 255}, WithAges=True, Faults=True, MaxFaults=2)
     sch = cgen(wd, "gen-cleanup-3c-faults", g3, simulate=2500 if thorough else 250, depth=141)
     v.distinct += len(sch)
-    cconform(v, wd, "cleanup-3c-faults-sim", g3, sch)
+    cconform(v, wd, "cleanup-3c-faults-sim", g3, sch, obs_invs=OBSI)
     gp = cconsts(Ops=ops, MaxOps=3, MaxVer=9, MaxLen=150, Draws={0, 255}, WithAges=True, PageSize=1)
     sch = cgen(wd, "gen-cleanup-paged", gp, simulate=2000 if thorough else 150, depth=151)
     v.distinct += len(sch)
-    cconform(v, wd, "cleanup-paged-sim", gp, sch, page_size=1)
+    cconform(v, wd, "cleanup-paged-sim", gp, sch, page_size=1, obs_invs=OBSI)
     # cleanups that have orphans, redundant snapshots AND old versions to delete, stopped after
     # each of their next deletions (errors inside cleanup are ignored by add_version)
     sits = [("orphans", cconsts(Ops={"AV", "GC"}, MaxOps=3, MaxVer=4, Draws={0, 255})),
@@ -49,12 +57,23 @@ def run(tier):
         w = csituations(wd, "sit-" + sit, gs, sit, limit=20 if thorough else 6, faults=True,
                         timeout=600)
         v.distinct += len(w)
-        cconform(v, wd, "sit-" + sit, gs, w)
+        cconform(v, wd, "sit-" + sit, gs, w, obs_invs=OBSI)
     # the schedules on which the pinned order loses history, replayed on the current code: it
     # must follow the repaired specification and keep every invariant
     wit = cwitness(wd, "witness-pinned-order", pin, limit=40 if thorough else 10)
     v.distinct += len(wit)
-    cconform(v, wd, "pinned-order-witnesses-on-current-code", pin, wit)
+    cconform(v, wd, "pinned-order-witnesses-on-current-code", pin, wit, obs_invs=OBSI)
+    # the schedule on which two overlapping cleanups (one of them working from an earlier
+    # "latest") used to delete each other's retained snapshot (finding G6), and TLC's shortest
+    # schedules into the same situation on the current specification
+    g6 = [json.loads(l)["steps"] for l in open(os.path.join(
+        vlib_root(), "findings", "G6-stale-cleanup-deletes-newer-snapshot.stim.ndjson"))]
+    cconform(v, wd, "stale-cleanup-newer-snapshot", cconsts(Ops=ops | {"GC"}), g6, obs_invs=OBSI)
+    if thorough:
+        # anti-vacuity: the former rule (every other snapshot is redundant) is refuted ...
+        deep = cconsts(Ops={"AV", "AS", "GC"}, MaxOps=6, MaxVer=4, Draws={0, 255}, WithAges=True)
+        cmc(v, wd, "cleanup-2c-6ops-former-snapshot-rule", dict(deep, Dev={"SNAPALL"}),
+            timeout=1700, expect="SnapshotRetained")
 
     v.finish("model_checking",
              rule="TLC explores every interleaving of a cleanup (drawn at the tail of a "
